@@ -5,6 +5,9 @@
 //!   c20:key — create / use / drop of every key type with known secret bytes under the allocator (Part A)
 //!   c20:fmt — `{:?}` / `{:#?}` / `{}` of every public secret-bearing type, searched for the secret (Part B)
 //!   c20:log — every `log` record at Trace level during store life cycles and failing opens (Part B)
+//!   c20:ffi — secret material fetched through the C API into `SecretBuffer` / `EncryptedBuffer` and released with
+//!             `askar_buffer_free` under the instrumented allocator; the JSON of `askar_get_current_error` after failing calls (Part A / B)
+//!   c20:ffilog — the log campaign through the C API with the C API's own logger (`askar_set_custom_logger`) in a child process (Part B)
 //!
 //! The allocator is the type `TrackingAlloc` below; the binary that runs the cases must install it with
 //!   `#[cfg(feature = "c20")] #[global_allocator] static C20_ALLOC: c20::TrackingAlloc = c20::TrackingAlloc;`
@@ -1213,9 +1216,6 @@ fn exec_fmt(case: &Value, tag: &str) -> Value {
                     continue;
                 }
                 feat_inc(&mut feat, &format!("shown:{}", sh.what));
-                if std::env::var("VERIF_C20_SHOW").is_ok() {
-                    eprintln!("[{}] {}: {}", ty, sh.what, sh.text.chars().take(300).collect::<String>());
-                }
                 for (label, sec) in &secrets {
                     let enc = find_secret(&sh.text, sec);
                     if !enc.is_empty() {
